@@ -93,6 +93,12 @@ main :: () -> i32 { x := g; x.n }
 h :: comptime { s : []i32 = i32.[%(a)d, %(b)d, %(c)d]; s };
 main :: () -> i32 { h[1] }
 """),
+    # constant array globals whose elements come from comptime blocks (element size < stride)
+    ("array_literal_global", """
+W :: struct { a: u64, b: u8 };
+arr :: W.[comptime { W.{ a = %(a)d, b = 2 } }, comptime { W.{ a = %(b)d, b = 4 } }, comptime { W.{ a = 5, b = %(c)d } }];
+main :: () -> i32 { i32.(arr[1].b) }
+"""),
     ("tuple_like", """
 Pair :: struct { k: u8, v: [3]u16, last: u8 };
 mk :: (n: u16) -> Pair { Pair.{ k = %(c)d, v = u16.[n, n + 1, n + 2], last = 7 } }
